@@ -453,6 +453,8 @@ func errClass(err error) string {
 // resKind abstracts a result rendering: value/done shape or thrown class.
 func resKind(s string) string {
 	switch {
+	case s == "":
+		return "nothing (the call did not return)"
 	case strings.HasPrefix(s, "!!"):
 		return s
 	case strings.HasPrefix(s, "!"):
